@@ -315,6 +315,21 @@ def run(chk, tmp, replay=None):
                         continue   # the blob's rename is not in the log at all: the log is incomplete, not evidence of a wrong order
                     chk.violation("cache:result-visible-before-its-blobs", f"{case}: a target result was renamed into place before a blob it references", {"case": case, "trace": traces[ti - 1][1]})
                 break
+    # the tiered cache (local + remote store) under a storage fault of the local tier: Remote.tla behaviours, remote store audited
+    from vlib.checks import c08
+    for h, (mism, dangling, _puts) in c08.local_fault_behaviours(chk, tmp, grog, hbin, quick):
+        chk.cov["traces_validated_against_impl"] += 1
+        steps = [(s["act"]["kind"], s["act"].get("m"), s["act"].get("remote"), s["act"].get("f")) for s in h]
+        chk.count(("tiered",) + tuple(map(str, steps)), nontrivial=True)
+        for kind, what in dangling:
+            chk.violation(f"cache:{kind}", f"tiered cache, behaviour {steps}: {what}", {"behaviour": h})
+        for m in mism:
+            if m["kind"].startswith("harness-"):
+                raise core.Infra(f"remote harness problem: {m}")
+            if m["kind"] == "wrong-output":
+                chk.violation("cache:corrupt-output-restored", f"tiered cache, behaviour {steps[: m['step'] + 1]}: a build restored an output whose bytes differ from what the command produces", {"behaviour": h, "mismatch": m})
+            else:
+                chk.cov.setdefault("anomalies_attributed_to_other_properties", {})["C08:" + m["kind"]] = 1
     chk.sample({"case": results[0][0], "exit": results[0][1], "last_syscall": results[0][4]})
     chk.assumptions += ["crash points are enumerated per thread by strace's when=k counter: every k is a real crash point, but not every interleaving of threads is visited",
-                        "local fs backend only (the remote mirror is C08)", "strace -b execve: target shells are not traced or killed by the injector"]
+                        "crash points: local fs backend (the remote mirror is C08); storage faults: local fs backend by syscall error injection, and the tiered cache with a broken local blob directory", "strace -b execve: target shells are not traced or killed by the injector"]
